@@ -130,6 +130,8 @@ package lint
 //@   maypanic
 //@   assigns \fresh
 //@   ensures [C01] result != nil && fresh(result) && 1 <= result.Status && result.Status <= 7
+//@   ensures [C03] implies(!inWindow(old(l.EffectiveDate), old(l.IneffectiveDate), old(cert.NotBefore)),
+//@              result.Status != Pass && result.Status != Notice && result.Status != Warn && result.Status != Error)
 //@   ensures [C04] implies(!old(inScope(l.Source, cert)),
 //@              result.Status == NA && g.nCtor == 0 && g.nCfg == 0 && g.nApplies == 0 && g.nExec == 0)
 //@   ensures [C04 C11] implies(old(inScope(l.Source, cert)),
@@ -140,10 +142,10 @@ package lint
 //@              g.nApplies == 1 && g.recvApplies == g.retCtor && g.tCfg < g.tApplies)
 //@   ensures [C04] implies(old(inScope(l.Source, cert)) && g.retCfg == nil && !g.retApplies,
 //@              result.Status == NA && g.nExec == 0)
-//@   ensures [C03 C04] implies(old(inScope(l.Source, cert)) && g.retCfg == nil && g.retApplies &&
+//@   ensures [C04] implies(old(inScope(l.Source, cert)) && g.retCfg == nil && g.retApplies &&
 //@                    !inWindow(old(l.EffectiveDate), old(l.IneffectiveDate), old(cert.NotBefore)),
 //@              result.Status == NE && g.nExec == 0)
-//@   ensures [C03 C04] implies(old(inScope(l.Source, cert)) && g.retCfg == nil && g.retApplies &&
+//@   ensures [C04] implies(old(inScope(l.Source, cert)) && g.retCfg == nil && g.retApplies &&
 //@                    inWindow(old(l.EffectiveDate), old(l.IneffectiveDate), old(cert.NotBefore)),
 //@              g.nExec == 1 && g.recvExec == g.retCtor && g.tApplies < g.tExec && result == g.retExec)
 
@@ -162,14 +164,16 @@ package lint
 //@   maypanic
 //@   assigns \fresh
 //@   ensures [C01] result != nil && fresh(result) && 1 <= result.Status && result.Status <= 7
+//@   ensures [C03] implies(!inWindow(old(l.EffectiveDate), old(l.IneffectiveDate), old(r.ThisUpdate)),
+//@              result.Status != Pass && result.Status != Notice && result.Status != Warn && result.Status != Error)
 //@   ensures [C04 C11] g.nCtor == 1 && g.nCfg == 1 && g.tCtor < g.tCfg && g.argCfg == g.retCtor
 //@   ensures [C04 C11] implies(g.retCfg != nil, result.Status == Fatal && g.nApplies == 0 && g.nExec == 0)
 //@   ensures [C04] implies(g.retCfg == nil, g.nApplies == 1 && g.recvApplies == g.retCtor && g.tCfg < g.tApplies)
 //@   ensures [C04] implies(g.retCfg == nil && !g.retApplies, result.Status == NA && g.nExec == 0)
-//@   ensures [C03 C04] implies(g.retCfg == nil && g.retApplies &&
+//@   ensures [C04] implies(g.retCfg == nil && g.retApplies &&
 //@                    !inWindow(old(l.EffectiveDate), old(l.IneffectiveDate), old(r.ThisUpdate)),
 //@              result.Status == NE && g.nExec == 0)
-//@   ensures [C03 C04] implies(g.retCfg == nil && g.retApplies &&
+//@   ensures [C04] implies(g.retCfg == nil && g.retApplies &&
 //@                    inWindow(old(l.EffectiveDate), old(l.IneffectiveDate), old(r.ThisUpdate)),
 //@              g.nExec == 1 && g.recvExec == g.retCtor && g.tApplies < g.tExec && result == g.retExec)
 
@@ -178,14 +182,16 @@ package lint
 //@   maypanic
 //@   assigns \fresh
 //@   ensures [C01] result != nil && fresh(result) && 1 <= result.Status && result.Status <= 7
+//@   ensures [C03] implies(!inWindow(old(l.EffectiveDate), old(l.IneffectiveDate), old(o.NextUpdate)),
+//@              result.Status != Pass && result.Status != Notice && result.Status != Warn && result.Status != Error)
 //@   ensures [C04 C11] g.nCtor == 1 && g.nCfg == 1 && g.tCtor < g.tCfg && g.argCfg == g.retCtor
 //@   ensures [C04 C11] implies(g.retCfg != nil, result.Status == Fatal && g.nApplies == 0 && g.nExec == 0)
 //@   ensures [C04] implies(g.retCfg == nil, g.nApplies == 1 && g.recvApplies == g.retCtor && g.tCfg < g.tApplies)
 //@   ensures [C04] implies(g.retCfg == nil && !g.retApplies, result.Status == NA && g.nExec == 0)
-//@   ensures [C03 C04] implies(g.retCfg == nil && g.retApplies &&
+//@   ensures [C04] implies(g.retCfg == nil && g.retApplies &&
 //@                    !inWindow(old(l.EffectiveDate), old(l.IneffectiveDate), old(o.NextUpdate)),
 //@              result.Status == NE && g.nExec == 0)
-//@   ensures [C03 C04] implies(g.retCfg == nil && g.retApplies &&
+//@   ensures [C04] implies(g.retCfg == nil && g.retApplies &&
 //@                    inWindow(old(l.EffectiveDate), old(l.IneffectiveDate), old(o.NextUpdate)),
 //@              g.nExec == 1 && g.recvExec == g.retCtor && g.tApplies < g.tExec && result == g.retExec)
 
